@@ -173,8 +173,25 @@ def text_arg_rule(rep, rule, mod, D, by_conv):
             loads = set(s[1] for s in srcs if s[0] == 'load')
             other = [s for s in srcs if s[0] != 'load' and not (s[0] == 'other' and s[1] in ('cexpr', 'global'))]
             ok = not other and loads and loads <= by_conv.get('s', set())
+            detail = 'the text argument of %s depends on %r' % (c['callee'], other or sorted(loads))
+            consts = [s for s in srcs if s[0] == 'other']
+            if ok and consts:
+                # a constant may stand in for a null pointer only: the arm chosen for a non-null pointer is the pointer
+                sel = f.inst_of(v)
+                cmp_ = f.inst_of(sel.ops[0]) if sel is not None and sel.op == 'select' else None
+                ok = False
+                detail = 'a constant string reaches the text argument of %s in a way the rule does not follow (expected: ' \
+                         'pointer != NULL ? pointer : constant)' % c['callee']
+                if cmp_ is not None and cmp_.op == 'icmp' and cmp_.pred in ('eq', 'ne') and \
+                        any(o.k == 'null' for o in cmp_.ops):
+                    tested = [o for o in cmp_.ops if o.k != 'null'][0]
+                    arm = sel.ops[1] if cmp_.pred == 'ne' else sel.ops[2]
+                    a_src, t_src = value_sources(f, arm), value_sources(f, tested)
+                    ok = all(x[0] == 'load' for x in a_src) and a_src == t_src and \
+                        set(x[1] for x in a_src) <= by_conv.get('s', set())
+                    detail = 'for a non-null argument the text handed to %s is not the argument itself' % c['callee']
             rep.inst(rule, '__printf', '%s: the text passed on is the fetched pointer', ok, c['call'].where(),
-                     None if ok else 'the text argument of %s depends on %r' % (c['callee'], other or sorted(loads)))
+                     None if ok else detail)
         else:
             root = alloca_root(f, v)
             ok, detail = False, 'the text argument of %s is not a local buffer' % c['callee']
@@ -395,6 +412,7 @@ def parser_rules(rep, mod, T, D):
                     note('R-FIELD', "'.' and digits: the precision is the number written and the precision bit is set", ok,
                          ap.where(), 'the routines receive precision %r (bit %r), the number in the format is %r'
                          % (pv(s2), pr.bit(s2, pr.pbit), r))
+    syntax_clauses(pr, T, D, note)
     for (rule, key), (ok, where, detail, n) in res.items():
         rep.inst(rule, '__printf', key, ok, where, detail, fact={'paths': n})
     for k in sorted(facts):
@@ -402,6 +420,128 @@ def parser_rules(rep, mod, T, D):
             rep.inst('R-PARSE', '__printf', 'every path to the formatting routines establishes %s' % k, True, where_fn(f),
                      fact={'paths': len(pr.states)})
     return facts, pr
+
+
+def syntax_clauses(pr, T, D, note):
+    """R-SYNTAX: every part of the directive is read where the previous part ended, so that the conversion character
+    is the one that follows the flags, the width, the precision and the length modifier"""
+    f, sx = pr.f, pr.sx
+    stars = pr.star_tests()
+    if len(stars) != 2:
+        raise AnalysisBroken("__printf: expected two tests for '*' (width, precision), found %d" % len(stars))
+    ld_ws, ld_ps = stars
+    ld_dot = T.get('prec_load')
+    lsw = T.get('len_switch')
+    ld_len = char_source(f, lsw.ops[0]) if lsw is not None else None
+    ld_conv = char_source(f, D['switch'].ops[0])
+    if ld_len is None or ld_conv is None:
+        raise AnalysisBroken('__printf: the length-modifier switch or the conversion switch was not recognised')
+    if ld_dot is None:
+        return          # no test for '.' found: R-OPSBITS reports that the precision bit is never set
+    aw, ap = D['width_atoi'], D['prec_atoi']
+    R = 'R-SYNTAX'
+
+    def byte_at(off):
+        return Lin.sym(sx.opq('byte', P(FMT, off).key()))
+
+    def eq(s, a, b):
+        return a is not None and b is not None and s.cons.entails_eq(a, b)
+
+    def argpos(s, call):
+        v = call.ops[0]
+        p = s.env.get(v.key()) if v.k in ('inst', 'arg') else None
+        return p.off if isinstance(p, P) and p.base == FMT and ('i', call.id) in s.env else None
+    lens = [(nm, m) for nm, m in T['len'].items()]
+    for s in pr.states:
+        a, dot, ln, cv = pr.pos(s, ld_ws), pr.pos(s, ld_dot), pr.pos(s, ld_len), pr.pos(s, ld_conv)
+        star_w = any(isinstance(s.env.get(('i', l)), Lin) for l in pr.star['w']) and ('i', aw.id) not in s.env
+        star_p = any(isinstance(s.env.get(('i', l)), Lin) for l in pr.star['p']) and ('i', ap.id) not in s.env
+        if star_w:
+            note(R, "'*' width: the '.' is looked for right after the '*'", eq(s, dot, a + 1 if a is not None else None),
+                 ld_dot.where(), "the '*' is at offset %r, the character tested for '.' at %r" % (a, dot))
+        elif ('i', aw.id) in s.env:
+            ok = eq(s, argpos(s, aw), a) and pr.nondigit_proved.get(id(s), False) and dot is not None and \
+                a is not None and s.cons.entails_le(a, dot)
+            note(R, "literal width: the number is read where the field starts, the '.' is looked for after its last digit", ok,
+                 aw.where(), "the field starts at offset %r, atoi reads at %r, the character tested for '.' is at %r (%s)"
+                 % (a, argpos(s, aw), dot, 'not a digit' if pr.nondigit_proved.get(id(s)) else 'possibly still a digit'))
+        b = s.env.get(('i', ld_dot.id))
+        if isinstance(b, Lin) and dot is not None:
+            d = sx.decide(s, ('cmp', 'eq', b, Lin(ord('.'))))
+            if d is False:
+                note(R, "no '.': the length modifier is looked for at the same character", eq(s, ln, dot), ld_len.where(),
+                     "the character tested for '.' is at offset %r, the one tested for a length modifier at %r" % (dot, ln))
+            elif d is True and star_p:
+                note(R, "'.*': the length modifier is looked for right after the '*'", eq(s, ln, dot + 2), ld_len.where(),
+                     "the '.' is at offset %r, the character tested for a length modifier at %r" % (dot, ln))
+            elif d is True and ('i', ap.id) in s.env:
+                nd = ln is not None and s.cons.entails_eq(digit_class_sym(sx, byte_at(ln)), 0)
+                ok = eq(s, argpos(s, ap), dot + 1) and nd and s.cons.entails_le(dot + 1, ln)
+                note(R, "'.' and digits: the number is read right after the '.', the length modifier is looked for after its "
+                     'last digit', ok, ap.where(), "the '.' is at offset %r, atoi reads at %r, the character tested for a length "
+                     'modifier is at %r (%s)' % (dot, argpos(s, ap), ln, 'not a digit' if nd else 'possibly still a digit'))
+        if ln is not None and cv is not None:
+            on = [nm for nm, m in lens if (lambda bv: bv is not None and s.cons.entails_eq(bv, 1))(pr.bit(s, m.bit_length() - 1))]
+            off_ = [nm for nm, m in lens if (lambda bv: bv is not None and s.cons.entails_eq(bv, 0))(pr.bit(s, m.bit_length() - 1))]
+            if len(on) + len(off_) != len(lens) or len(on) > 1:
+                note(R, 'at most one length modifier is recorded', False, ld_len.where(), 'length bits set: %r' % on)
+                continue
+            M = on[0] if on else ''
+            ok = eq(s, cv, ln + len(M))
+            for k, ch in enumerate(M):
+                ok = ok and s.cons.entails_eq(byte_at(ln + k), ord(ch))
+            if len(M) == 1 and M in 'hl':
+                nb = byte_at(ln + 1)
+                ok = ok and (s.cons.entails_lt(nb, ord(M)) or s.cons.entails_lt(Lin(ord(M)), nb))
+            note(R, 'length modifier %s: its characters are consumed, the conversion character is the next one' % (M or '(none)'),
+                 ok, ld_conv.where(), 'the modifier is looked for at offset %r, the conversion character is read at %r'
+                 % (ln, cv))
+
+
+def flags_rule(rep, rule, mod, T, pr):
+    """one pass of the flag loop for flag character c: exactly the bit of c is added to the directive word, every other bit
+    is kept, the cursor moves by one"""
+    f, sx = pr.f, pr.sx
+    fsw = T.get('flag_switch')
+    if fsw is None:
+        raise AnalysisBroken('__printf: the switch over the flag characters was not recognised')
+    loops = [L for L in f.loops if fsw.block in L['blocks']]
+    L = min(loops, key=lambda l: len(l['blocks']))
+    H = L['header']
+    lst = sx.iter_states.get(('__printf', H.name), [])
+    ophi = [i for i in H.insts if i.op == 'phi' and ('__printf', i.id) in sx.bitword_phis]
+    cphi = [i for i in H.insts if i.op == 'phi' and i.ty.get('k') == 'ptr']
+    if len(ophi) != 1 or len(cphi) != 1:
+        raise AnalysisBroken('__printf: the flag loop does not carry exactly one directive word and one cursor')
+    ophi, cphi = ophi[0], cphi[0]
+    seen = set()
+    for T_ in lst:
+        cases = [n[3] for n in T_.notes if n[0] == 'case' and n[2] == fsw.id]
+        if len(cases) != 1 or cases[0] == 'default':
+            continue
+        ch = chr(cases[0])
+        head = SX.bw_decode(T_.env.get(('i', ophi.id)))
+        nxt = cur = None
+        for (bb, v) in ophi.incoming:
+            if f.bmap[bb] in L['latches']:
+                nxt = SX.bw_decode(sx.val(T_, v, f)) if isinstance(sx.val(T_, v, f), Lin) else None
+        h0 = T_.env.get(('i', cphi.id))
+        for (bb, v) in cphi.incoming:
+            if f.bmap[bb] in L['latches']:
+                cur = sx.val(T_, v, f)
+        m = T['flags'].get(ch)
+        ok = head is not None and nxt is not None and m is not None and nxt[0] == (head[0] | m) and \
+            nxt[1] == {n: s_ for n, s_ in head[1].items() if not (m >> n) & 1}
+        okc = isinstance(h0, P) and isinstance(cur, P) and cur.base == h0.base and T_.cons.entails_eq(cur.off, h0.off + 1)
+        seen.add(ch)
+        rep.inst(rule, '__printf', 'flag %r adds its bit and nothing else, cursor + 1' % ch, ok and okc, fsw.where(),
+                 None if ok and okc else 'one pass of the flag loop for %r turns the directive word %r into %r and moves the '
+                 'cursor from %r to %r' % (ch, T_.env.get(('i', ophi.id)), sx.val(T_, [v for (bb, v) in ophi.incoming
+                                                                                     if f.bmap[bb] in L['latches']][0], f), h0, cur))
+    for ch in ISO_FLAGS:
+        if ch not in seen:
+            rep.inst(rule, '__printf', 'flag %r adds its bit and nothing else, cursor + 1' % ch, False, fsw.where(),
+                     'no pass of the flag loop handles %r' % ch)
 
 
 def literal_rule(rep, rule, mod, D, pr):
@@ -616,9 +756,33 @@ def digitchr_rule(rep, rule, lay, T, convs):
     sx = lay.sx
     ub = Lin.sym(('ops', 'bit', T['upper'].bit_length() - 1)) if T['upper'] else None
     res = {}
-    for (fname, v, rem, s, dkey) in sx.digit_probes:
+    def upd(k, ok, detail, fname):
+        if k not in res or (res[k][0] and not ok):
+            res[k] = (ok, None if ok else detail, fname)
+    for (fname, v, rem, s, dkey, dv) in sx.digit_probes:
         if not isinstance(rem, Lin) or not isinstance(v, Lin):
             res['digit characters are a function of the remainder'] = (False, 'stored %r for remainder %r' % (v, rem), fname)
+            continue
+        tl = sx.table_loads.get(next(iter(v.t))) if (len(v.t) == 1 and v.c == 0 and list(v.t.values()) == [1]) else None
+        if tl is not None:
+            # the character comes from a constant table indexed by the remainder: compare the table itself
+            g, off = tl
+            tab = sx.global_bytes(g) or []
+            base = dv.c if isinstance(dv, Lin) and dv.is_const() else None
+            if base is None or not s.cons.entails_eq(off, rem):
+                upd('digit characters are a function of the remainder', False,
+                    'table %s is indexed with %r, the remainder is %r (base %r)' % (g, off, rem, dv), fname)
+                continue
+            ups = [up for up in (0, 1) if ub is None and not up or
+                   (ub is not None and (lambda t: (t.cons.add_eq(ub, up), sx.feasible(t, set(ub.t.keys())))[1])(s.fork()))]
+            low = all(r < len(tab) and tab[r] == 48 + r for r in range(min(base, 10)))
+            upd("remainder below ten -> '0' + r", low, 'table %s starts with %r' % (g, bytes(tab[:10])), fname)
+            if base > 10:
+                for up in ups:
+                    a = ord('A') if up else ord('a')
+                    hi = all(r < len(tab) and tab[r] == a + r - 10 for r in range(10, base))
+                    upd("remainder ten and above -> '%s' + r - 10" % ('A' if up else 'a'), hi,
+                        'table %s holds %r for the remainders 10..%d' % (g, bytes(tab[10:base]), base - 1), fname)
             continue
         for (s2, small) in sx.branch(s.fork(), ('cmp', 'sle', rem, Lin(9))):
             if small:
@@ -773,6 +937,14 @@ def run(rep, repo, tier):
     rep.units += [SRC] + c06_wrap.UNITS
     T = parser_tables(mod)
     D = dispatch(mod)
+    try:
+        ux = D['table']['X']['calls'][0]['extra_bits']
+        lx = D['table']['x']['calls'][0]['extra_bits']
+        diff = ux & ~lx
+        if diff and diff & (diff - 1) == 0:
+            T['upper'] = diff       # however the parser computes it: the bit that distinguishes %X from %x at the call
+    except (KeyError, IndexError):
+        pass
     loopvar_rule(rep, 'R-LOOPVAR', mod, ['__printf'] + sorted(n for n in emitter_functions(mod) if n != 'print_f'))
     cursor_rule(rep, 'R-CURSOR', mod)
     opsbits_rule(rep, 'R-OPSBITS', mod, T)
@@ -781,6 +953,7 @@ def run(rep, repo, tier):
     wide_rule(rep, 'R-WIDE', mod, T, D)
     facts, pr = parser_rules(rep, mod, T, D)
     literal_rule(rep, 'R-LITERAL', mod, D, pr)
+    flags_rule(rep, 'R-FLAGS', mod, T, pr)
     # integer conversions that reach the same routine with the same constants are analysed once
     groups = {}
     for conv in 'diuoxXp':
@@ -805,7 +978,7 @@ def run(rep, repo, tier):
         for it in payload:
             rep.inst(*it[:6], nontrivial=it[6], fact=it[7])
     for rule, n in (('R-LOOPVAR', 12), ('R-CURSOR', 15), ('R-OPSBITS', 18), ('R-VAARG', 25), ('R-PERCENT', 1), ('R-WIDE', 1),
-                    ('R-STAR', 4), ('R-FIELD', 3), ('R-LITERAL', 1), ('R-ILAYOUT', 100), ('R-IMAG', 15), ('R-DIGITCHR', 9),
+                    ('R-STAR', 4), ('R-FIELD', 3), ('R-SYNTAX', 12), ('R-FLAGS', 5), ('R-LITERAL', 1), ('R-ILAYOUT', 100), ('R-IMAG', 15), ('R-DIGITCHR', 9),
                     ('R-SLAYOUT', 6), ('R-SBOUND', 1), ('R-PCACC', 5), ('R-EMITCOUNT', 8), ('R-IBUF', 3), ('R-WRAP', 10)):
         rep.floor(rule, n)
     rep.assumptions += [
